@@ -512,6 +512,19 @@ def _tree_leaves(o, out):
     return out
 
 
+_UF_EVAL = {
+    "exp": math.exp,
+    "log": math.log,
+    "log2": math.log2,
+    "log10": math.log10,
+    "tanh": math.tanh,
+    "atanh": math.atanh,
+    "sigmoid": lambda v: 1 / (1 + math.exp(-v)),
+    "sin": math.sin,
+    "cos": math.cos,
+}
+
+
 def cross_check_path(ex, sctx, nctx):
     """If the native input of nctx satisfies this path's condition, compare outcomes.  True = matched and equal,
     None = this path does not cover the input, str = discrepancy."""
@@ -531,6 +544,24 @@ def cross_check_path(ex, sctx, nctx):
             else:
                 fv = Fraction(float(val))  # the native run saw the float rounding of the drawn value
                 s.add(zv == z3.RealVal(f"{fv.numerator}/{fv.denominator}"))
+    if s.check() != z3.sat:
+        return None
+    # uninterpreted real functions (exp/log/tanh/sigmoid/...): pin every recorded occurrence to the true function value at
+    # the sampled input (occurrences are recorded in creation order, so arguments only depend on earlier ones)
+    for name, occ in getattr(ex, "ufs", {}).items():
+        f = _UF_EVAL.get(name)
+        if f is None:
+            continue
+        for xa, ya in occ:
+            if s.check() != z3.sat:
+                return None
+            xv = _pyval(s.model().eval(xa, model_completion=True))
+            try:
+                fv = Fraction(f(float(xv)))
+            except (ValueError, OverflowError, ZeroDivisionError):
+                continue
+            tol = Fraction(1, 10**9) * max(1, abs(fv))
+            s.add(ya >= z3.RealVal(f"{(fv - tol).numerator}/{(fv - tol).denominator}"), ya <= z3.RealVal(f"{(fv + tol).numerator}/{(fv + tol).denominator}"))
     if s.check() != z3.sat:
         return None
     m = s.model()
